@@ -12,7 +12,7 @@ import random
 
 import numpy as np
 
-from .. import tlc, gen
+from .. import tlc, gen, realdata
 from ..common import Evidence, Reporter, import_mir_eval
 from ..relations import RelLog, call
 
@@ -196,6 +196,24 @@ def run(tier, seed):
             c = r2[1]
             for nm, i, j in (("CMLc<=CMLt", 0, 1), ("AMLc<=AMLt", 2, 3), ("CMLc<=AMLc", 0, 2), ("CMLt<=AMLt", 1, 3)):
                 nested(nm, lambda: c[i], lambda: c[j], {"ref": ba.tolist(), "est": bb.tolist()})
+    # the repository's own fixtures: widening a tolerance on real annotations
+    lim = None if thorough else 2
+    take3 = lambda r: r[:3]  # noqa
+    for nm, (a, b) in realdata.pairs(me, "beat", lim):
+        mono("beat.f_measure", me.beat.f_measure, (a, b), "f_measure_threshold", [0.02, 0.07, 0.1, 0.2])
+    for nm, (a, b) in realdata.pairs(me, "onset", lim):
+        mono("onset.f_measure", me.onset.f_measure, (a, b), "window", [0.01, 0.05, 0.1], take=lambda r: (r[1], r[2], r[0]))
+    for nm, (ri, rp, ei, ep) in realdata.pairs(me, "transcription", lim):
+        mono("transcription.precision_recall_f1_overlap", tr.precision_recall_f1_overlap, (ri, rp, ei, ep), "onset_tolerance", [0.02, 0.05, 0.1], take=take3)
+        mono("transcription.precision_recall_f1_overlap", tr.precision_recall_f1_overlap, (ri, rp, ei, ep), "pitch_tolerance", [25.0, 50.0, 100.0], take=take3)
+        mono("transcription.precision_recall_f1_overlap", tr.precision_recall_f1_overlap, (ri, rp, ei, ep), "offset_ratio", [0.1, 0.2, 0.4], take=take3)
+    for nm, (rt, rf, et, ef) in realdata.pairs(me, "melody", lim):
+        v = mel.to_cent_voicing(rt, rf, et, ef)
+        for name in ("raw_pitch_accuracy", "raw_chroma_accuracy", "overall_accuracy"):
+            for t1, t2 in ((25, 50), (50, 100)):
+                fn_ = getattr(mel, name)
+                log.add("mono", "melody." + name, call(lambda: (fn_(*v, cent_tolerance=t1),)), call(lambda: (fn_(*v, cent_tolerance=t2),)),
+                        {"param": "cent_tolerance", "t1": t1, "t2": t2, "fixture": "melody/" + nm})
     bad, st = log.judge()
     ev.tlc("Trace_Rel", st, "MonoSpec verdicts on recorded outcome pairs")
     ev.cov["traces_validated_against_impl"] = len(log.events)
